@@ -45,13 +45,13 @@ func TestMain(m *testing.M) {
 // ---------------------------------------------------------------- jobs
 
 type Job struct {
-	ID     int    `json:"id"`
-	File   string `json:"file"` // base64 JSON of *pbfgen.File
-	Kind   string `json:"kind"` // "cut" or a damage class
-	Cut    int    `json:"cut"`
-	Pos    int    `json:"pos"` // block position: -1 header block, k data block
-	Arg    string `json:"arg"` // damage parameter
-	Procs  int    `json:"procs"`
+	ID    int    `json:"id"`
+	File  string `json:"file"` // base64 JSON of *pbfgen.File
+	Kind  string `json:"kind"` // "cut" or a damage class
+	Cut   int    `json:"cut"`
+	Pos   int    `json:"pos"` // block position: -1 header block, k data block
+	Arg   string `json:"arg"` // damage parameter
+	Procs int    `json:"procs"`
 }
 
 type Verdict struct {
